@@ -222,6 +222,10 @@ func (fr *Frame) exec(st *State, ins ssa.Instruction) {
 		r := u.def("chan", SRef, "(obj "+a+")")
 		u.assume("(= (rootid " + r + ") " + a + ")")
 		u.set(st, "alloc", "(+ "+a+" 1)")
+		if _, ok := u.P.CS.GhostMaps["chanClosed"]; ok {
+			u.setCompSort("GM_chanClosed", "(Array Ref Bool)")
+			u.set(st, "GM_chanClosed", store(u.get(st, "GM_chanClosed"), r, "false"))
+		}
 		if _, ok := u.P.CS.GhostMaps["chancap"]; ok {
 			// ghost: the buffer size the channel was made with
 			u.setCompSort("GM_chancap", "(Array Ref Int)")
